@@ -26,10 +26,12 @@ def run(ctx):
                                        extra=['FewFlags'] if tier == 'quick' else []))
     cy = ac.tlc_behaviours_cy(ctx, 6, plain=(tier == 'quick'))
     ctx.notes['yaml_circuit_behaviours'] = len(cy)
-    behs = ac.dedupe(behs + cy)
+    targeted = list(cy)
+    if tier == 'thorough':       # a circuit and its derivative (quick tier: C07)
+        targeted += ac.tlc_behaviours_pair(ctx, 5)
     ctx.notes['deviations_detected_by'] = {d: ac.vacuity(ctx, CALLS, d) for d in ('OpCacheKeyedByName', 'NodeCacheSurvives', 'StateStash')}
     ctx.notes['deviations_detected_by'].update({d: ac.vacuity(ctx, ac.CY_CALLS, d, maxlen=4) for d in ('TemplateCacheByPath', 'ClearSkipsWhenNoIR')})
-    ac.judge_all(ctx, behs, 'compiled model after a history of API calls', cap=4500 if ctx.tier == "quick" else 45000)
+    ac.judge_all(ctx, behs, 'compiled model after a history of API calls', cap=1800 if ctx.tier == "quick" else 45000, always=targeted)
     ac.pinned_d09(ctx)
     for b in behs[len(behs) // 2: len(behs) // 2 + 2]:
         ctx.sample(dict(calls=b['calls'], expected_units=b['expM'], dev=b['dev']))
